@@ -36,6 +36,7 @@ deriving DecidableEq, Repr
 /-- Program counter of one `Pipeline::process` call (one submitter). -/
 inductive PC
   | idle                       -- before `self.tasks.track(hash)`
+  | missed                     -- split `track` only: looked the id up under the READ lock, found nothing, lock released
   | tracked (x : Nat)          -- holds a clone of task `x`; before `pipeline_tx.send`
   | sent (x : Nat)             -- inside `task.ready()`, nothing done yet
   | gap (x : Nat)              -- orig only: result checked (None), lock released, `notified()` NOT yet created
@@ -76,6 +77,9 @@ structure St where
   pc     : Nat → PC
   queue  : List Res            -- mpsc channel contents (oldest first)
   pipe   : PPC
+  /-- harness level only (never read by `stepFn`): submitters whose `track` call is queued on the tracker's lock,
+      in arrival order (tokio's `RwLock` is FIFO) -/
+  lockQueue : List Nat := []
 
 def upd {β : Type} (f : Nat → β) (k : Nat) (v : β) : Nat → β := fun i => if i = k then v else f i
 
@@ -160,6 +164,54 @@ def stepFn (v : Variant) (sid : Nat → Nat) (s : St) : Act → Option St
     | .notify x => some { s with pc := fun t => wake x (s.pc t), pipe := .idle }
     | _ => none
 
+/-! ### `track` split in two steps (what a read-locked "fast path" turns it into)
+
+The code takes the tracker's WRITE lock for the whole get-or-insert (`track` above is one atomic action; the
+extracted source text of `TaskTracker::track` is checked against exactly that shape in `P2/Props/C14.lean`).
+`stepSplit recheck` models the alternative: `lookup` under a shared READ lock (hit → clone; miss → lock released),
+then `insert` under the WRITE lock — re-checking the map first (`recheck = true`) or blindly inserting a fresh
+task that overwrites whatever is there (`recheck = false`). The atomic `track` is not available in this system;
+all other actions are those of the repaired `Task::ready`. -/
+
+inductive ActS
+  | base (a : Act)
+  | lookup (t : Nat)
+  | insert (t : Nat)
+deriving DecidableEq, Repr
+
+def stepSplit (recheck : Bool) (sid : Nat → Nat) (s : St) : ActS → Option St
+  | .base (.track _) => none
+  | .base a => stepFn .fixed sid s a
+  | .lookup t =>
+    match s.pc t with
+    | .idle =>
+      if lockHeld s.pipe then none
+      else match s.tasks (sid t) with
+        | some x => some { s with pc := upd s.pc t (.tracked x) }
+        | none => some { s with pc := upd s.pc t .missed }
+    | _ => none
+  | .insert t =>
+    match s.pc t with
+    | .missed =>
+      if lockHeld s.pipe then none
+      else match (if recheck then s.tasks (sid t) else none) with
+        | some x => some { s with pc := upd s.pc t (.tracked x) }
+        | none => some { s with tasks := upd s.tasks (sid t) (some s.next),
+                                owner := upd s.owner s.next (sid t),
+                                next := s.next + 1,
+                                pc := upd s.pc t (.tracked s.next) }
+    | _ => none
+
+inductive ReachS (recheck : Bool) (sid : Nat → Nat) : St → Prop
+  | init : ReachS recheck sid init
+  | step {s s'} (a : ActS) : ReachS recheck sid s → stepSplit recheck sid s a = some s' → ReachS recheck sid s'
+
+def runSplit (recheck : Bool) (sid : Nat → Nat) (s : St) : List ActS → Option St
+  | [] => some s
+  | a :: as => match stepSplit recheck sid s a with
+    | some s' => runSplit recheck sid s' as
+    | none => none
+
 def Step (v : Variant) (sid : Nat → Nat) (s s' : St) : Prop := ∃ a, stepFn v sid s a = some s'
 
 inductive Reach (v : Variant) (sid : Nat → Nat) : St → Prop
@@ -175,7 +227,8 @@ def runSched (v : Variant) (sid : Nat → Nat) (s : St) : List Act → Option St
 
 /-! ### Harness-level macro steps (what the schedule points in the real code allow to be driven)
 
-`T t`  `tasks.track(id)`                                   ↦ track
+`T t`  `tasks.track(id)`                                   ↦ track   (cancelled again if the lock is held: `blocked`)
+`B t`  `tasks.track(id)`, left queued if the lock is held  ↦ track now, or when the lock is released (FIFO)
 `S t`  `pipeline_tx.send(event)`                           ↦ send
 `C t`  poll `task.ready()` up to the point "ready:checked" ↦ orig: check          fixed: register; check
 `G t`  release from "ready:checked", poll                  ↦ orig: register        fixed: await [; recheck if woken]
@@ -187,7 +240,7 @@ def runSched (v : Variant) (sid : Nat → Nat) (s : St) : List Act → Option St
 -/
 
 inductive Macro
-  | T (t : Nat) | S (t : Nat) | C (t : Nat) | G (t : Nat) | W (t : Nat) | Pr | Pm | Ps | Pn
+  | T (t : Nat) | B (t : Nat) | S (t : Nat) | C (t : Nat) | G (t : Nat) | W (t : Nat) | Pr | Pm | Ps | Pn
 deriving DecidableEq, Repr
 
 def resStr (r : Res) : String := s!"d{r.id}.{r.src}"
@@ -196,9 +249,19 @@ def resStr (r : Res) : String := s!"d{r.id}.{r.src}"
 def macroStep (v : Variant) (sid : Nat → Nat) (s : St) : Macro → St × String
   | .T t =>
     match s.pc t with
-    | .idle => match stepFn v sid s (.track t) with
-      | some s' => (s', "ok")
-      | none => (s, "blocked")
+    | .idle =>
+      if s.lockQueue.contains t then (s, "x")
+      else match stepFn v sid s (.track t) with
+        | some s' => (s', "ok")
+        | none => (s, "blocked")
+    | _ => (s, "x")
+  | .B t =>
+    match s.pc t with
+    | .idle =>
+      if s.lockQueue.contains t then (s, "x")
+      else match stepFn v sid s (.track t) with
+        | some s' => (s', "ok")
+        | none => ({ s with lockQueue := s.lockQueue ++ [t] }, "queued")
     | _ => (s, "x")
   | .S t =>
     match stepFn v sid s (.send t) with
@@ -265,11 +328,17 @@ def macroStep (v : Variant) (sid : Nat → Nat) (s : St) : Macro → St × Strin
     | none => (s, "x")
   | .Pn =>
     match stepFn v sid s .notifyWaiters with
-    | some s' => (s', "ok")
+    | some s' =>
+      -- the write lock is released: the queued `track` calls get it in arrival order
+      let s'' := s'.lockQueue.foldl (fun acc t =>
+        match stepFn v sid acc (.track t) with
+        | some a => a
+        | none => acc) { s' with lockQueue := [] }
+      (s'', "ok")
     | none => (s, "x")
 
 def Macro.tid : Macro → Option Nat
-  | .T t => some t | .S t => some t | .C t => some t | .G t => some t | .W t => some t | _ => none
+  | .T t => some t | .B t => some t | .S t => some t | .C t => some t | .G t => some t | .W t => some t | _ => none
 
 /-- Run a macro schedule for the submitters `0 … n-1` (a step naming another submitter answers `x`). -/
 def runMacros (v : Variant) (sid : Nat → Nat) (n : Nat) (s : St) : List Macro → St × List String
